@@ -3,4 +3,4 @@ From SP Require Design.Flat Design.Layout Design.Sem Encode.Compile Encode.CodeS
 Definition roots :=
   (Encode.Compile.compile, Encode.Compile.full_cnf, Encode.Compile.apply_constraint,
    Design.Layout.variables_per_sample, Core.Card.combine_requests, Base.Sat.sat,
-   Encode.CodeSem.code_sem, Encode.CodeSem.in_f1, Design.Sem.all_valid, Design.Sem.valid_b).
+   Encode.CodeSem.code_sem, Encode.CodeSem.in_f1, Encode.CodeSem.f1_why, Design.Sem.all_valid, Design.Sem.valid_b).
